@@ -93,6 +93,9 @@ func c06Redeem(x *explore.Exec, e *harness.ProxyEnv, kinds []string) {
 			switch c.Form.Get("code") {
 			case "code-allowed":
 				a = ans(200, `{"access_token":"at","refresh_token":"rt","expires_in":3600,"email":"bob@corp.test"}`)
+			case "code-allowed-long-tokens":
+				// tokens as long as real signed tokens: the sealed session exceeds 4096 bytes
+				a = ans(200, `{"access_token":"`+c03LongToken("access", 2600)+`","refresh_token":"`+c03LongToken("refresh", 1700)+`","expires_in":3600,"email":"bob@corp.test"}`)
 			case "code-denied":
 				a = ans(200, `{"access_token":"at","refresh_token":"rt","expires_in":3600,"email":"dave@other.test"}`)
 			case "code-rejected":
@@ -126,20 +129,26 @@ func c06Run(c *fw.Ctx) {
 	fa, _ := c06Start(e, hostA, "/pathA?x=1")
 	fa2, _ := c06Start(e, hostA, "/pathA?x=1")
 	fb, _ := c06Start(e, hostB, "/pathB")
-	if fa == nil || fa2 == nil || fb == nil {
+	// A'' = another page of the same host, started by a browser that still carries flow A's CSRF cookie
+	// (a second tab)
+	fa3 := c06StartWith(e, hostA, "/other-page?tab=2", []string{"Cookie: " + c06CSRF + "=" + fa.Cookie})
+	if fa == nil || fa2 == nil || fb == nil || fa3 == nil {
 		panic(explore.HarnessError{Msg: "cannot start the reference flows"})
+	}
+	if err := e.Cipher.Unmarshal(fa3.State, &fa3.Record); err != nil {
+		panic(explore.HarnessError{Msg: "cannot open the state of the second-tab flow"})
 	}
 	otherKey, _ := other.Marshal(&fa.Record)
 	// a different encoding of cookie_A's ciphertext (spare bits of the last character / padding)
 	reenc := base64.URLEncoding.EncodeToString(decodeB64(fa.Cookie))
 	type named struct{ n, v string }
-	states := []named{{"absent", ""}, {"garbage", "Z2FyYmFnZQ"}, {"state_A", fa.State}, {"state_A'", fa2.State}, {"state_B", fb.State},
+	states := []named{{"absent", ""}, {"garbage", "Z2FyYmFnZQ"}, {"state_A", fa.State}, {"state_A'", fa2.State}, {"state_A''-second-tab", fa3.State}, {"state_B", fb.State},
 		{"cookie_A-as-state", fa.Cookie}, {"re-encoded-cookie_A", reenc}, {"sealed-under-other-key", otherKey}}
-	cookies := []named{{"absent", ""}, {"garbage", "Z2FyYmFnZQ"}, {"cookie_A", fa.Cookie}, {"cookie_A'", fa2.Cookie}, {"cookie_B", fb.Cookie}, {"state_A-as-cookie", fa.State}}
-	codes := []string{"", "code-allowed", "code-denied", "code-rejected", "code-unavailable"}
+	cookies := []named{{"absent", ""}, {"garbage", "Z2FyYmFnZQ"}, {"cookie_A", fa.Cookie}, {"cookie_A'", fa2.Cookie}, {"cookie_A''-second-tab", fa3.Cookie}, {"cookie_B", fb.Cookie}, {"state_A-as-cookie", fa.State}}
+	codes := []string{"", "code-allowed", "code-denied", "code-rejected", "code-unavailable", "code-allowed-long-tokens"}
 	errs := []string{"", "access_denied"}
 	hosts := []string{hostA, hostB}
-	sealedByProxy := map[string]*proxy.StateParameter{fa.State: &fa.Record, fa.Cookie: &fa.Record, fa2.State: &fa2.Record, fa2.Cookie: &fa2.Record, fb.State: &fb.Record, fb.Cookie: &fb.Record}
+	sealedByProxy := map[string]*proxy.StateParameter{fa.State: &fa.Record, fa.Cookie: &fa.Record, fa2.State: &fa2.Record, fa2.Cookie: &fa2.Record, fb.State: &fb.Record, fb.Cookie: &fb.Record, fa3.State: &fa3.Record, fa3.Cookie: &fa3.Record}
 
 	drive(c, "callback", -1, func(x *explore.Exec, owned bool) {
 		st := states[x.Choose("state", len(states))]
@@ -195,7 +204,7 @@ func c06Run(c *fw.Ctx) {
 		if er != "" {
 			viol("session-despite-error", "a session was set although the callback carried an error parameter")
 		}
-		if code != "code-allowed" {
+		if code != "code-allowed" && code != "code-allowed-long-tokens" {
 			viol("session-without-redeemed-allowed-user/"+code, "a session was set although the code was "+code)
 		}
 		s := e.Open(sc.Value)
@@ -402,7 +411,7 @@ func init() {
 	fw.Register(&fw.Check{
 		ID:    "C06",
 		Level: "exploration",
-		Rule: "(callback) three real flows started through the proxy (A, A' = the same URL started a second time, B on another upstream host) crossed with every combination of state {absent, garbage, state_A, state_A', state_B, cookie_A as state, re-encoded cookie_A, sealed under another key} x CSRF cookie {absent, garbage, cookie_A, cookie_A', cookie_B, state_A as cookie} x code {absent, redeemable allowed user, redeemable denied user, rejected, authenticator 503} x error {absent, set} x Host {A, B}; " +
+		Rule: "(callback) four real flows started through the proxy (A, A' = the same URL started a second time, A'' = another page started by a browser still carrying A's CSRF cookie, B on another upstream host) crossed with every combination of state {absent, garbage, state_A, state_A', state_B, cookie_A as state, re-encoded cookie_A, sealed under another key} x CSRF cookie {absent, garbage, cookie_A, cookie_A', cookie_B, state_A as cookie} x code {absent, redeemable allowed user, the same with tokens so long that the sealed session exceeds 4096 bytes, redeemable denied user, rejected, authenticator 503} x error {absent, set} x Host {A, B}; " +
 			"(target) every origin-form request target built from segments {a, empty, ., .., %2f, %5c, backslash, evil.test, @evil.test, %2e%2e, ;x} to depth 2 (quick) / 3 (thorough) x {no query, query naming another authority, fragment naming another authority}, plus absolute-form targets naming the upstream's own host, sent as raw bytes; each started flow is completed honestly. " +
 			"(rules) two upstreams with different rules (an email domain; a group) behind one proxy: a complete honest flow x Host {2} x user {4: passes both, domain only, group only, neither} x the authenticator's profile answer at that moment {200, 429, 503, 500, reset, 200 not JSON} x a client header naming the other upstream {none, X-Forwarded-Host, X-Original-Host, Forwarded}: a session is set only for a user passing the rule of the upstream serving the request Host (for a group rule: the profile endpoint answered and listed an allowed group), bound to that Host. " +
 			"Oracle ('only when'): session cookie set => state and cookie both sealed by this proxy, different ciphertexts, equal flow records, code redeemed for a user that passes the rules, no error parameter; session bound to the request Host; Location = recorded URI and resolves to the same host under an RFC 3986 reading and a browser-style reading. " +
